@@ -95,6 +95,9 @@ pub fn install_panic_hook() {
       "panic".to_string()
     };
     let loc = info.location().map(|l| format!(" at {}:{}", l.file(), l.line())).unwrap_or_default();
+    if std::env::var("VERIF_SHOW_PANICS").is_ok() {
+      eprintln!("panic: {msg}{loc}");
+    }
     LAST_PANIC.with(|p| *p.borrow_mut() = format!("{msg}{loc}"));
     PANICS.with(|p| *p.borrow_mut() += 1);
   }));
